@@ -110,6 +110,9 @@ def plan(tier):
     fam(3, 1, 'FULL', 1, 'post', 'core')
     fam(2, 2, 'SU2', 1, 'labels', 'core')
     fam(1, 3, 'SU2', 1, 'labels', 'core')
+    for t1 in ('AND', 'XOR') if tier == 'quick' else ('AND', 'OR', 'XOR'):
+        for t2 in ('OR', 'GT') if tier == 'quick' else ('AND', 'OR', 'GT'):
+            t.append({'kind': 'dup2', 't1': t1, 't2': t2})
     fam(1, 4, 'CHAIN', 2, 'post', 'last')
     fam(1, 4, 'CHAINB', 2, 'post', 'last')
     for k in (5, 6, 7):
@@ -130,7 +133,7 @@ def plan(tier):
 def describe(tier):
     P, _ = pipelines()
     return {
-        'rule': 'E1: circuits of F(n,k,A) x output policies. mode labels: F(2,2,.) and F(1,3,.) over {AND,OR,XOR,NOT,IFF} with each node in turn labelled \'\' (the only falsy label) or \'0\', all postconditions. mode post (also on the same circuit with reversed storage order for the unary/chain families): postcondition predicates of the five '
+        'rule': 'dup2: two-level duplicate structures (7 gates over 3 inputs: a duplicate pair, a pair built on them with every straight / crossed wiring, three users; 4 (thorough 9) type choices x 64 wirings x 17 output lists), all postconditions; E1: circuits of F(n,k,A) x output policies. mode labels: F(2,2,.) and F(1,3,.) over {AND,OR,XOR,NOT,IFF} with each node in turn labelled \'\' (the only falsy label) or \'0\', all postconditions. mode post (also on the same circuit with reversed storage order for the unary/chain families): postcondition predicates of the five '
         'passes on every result (RRG exact reachable set + idempotence, MergeDuplicate no equal signature, '
         'MergeEquivalent no equal reference table, MergeUnary negation/buffer statements on the all-negation / '
         f'all-buffer families). mode pipe: {len(P)} pipeline expressions (all a|b, all [a,b], 10 triples in 5 '
@@ -338,7 +341,37 @@ def check_circuit(n, gates, acc, mode, pol, fam):
     acc.sample({**space.spec_json(n, gates, pols[-1]), 'mode': mode})
 
 
+def dup2_specs(t1, t2):
+    """Two-level duplicate structures over three inputs: g1, g2 = t1(a, b) (second one with swapped operands as
+    well); h1 = t2(g_i, c), h2 = t2(g_j, c); p = NOT(g_u); k = XOR(h_v, a); m = XOR(h_w, b) for every wiring
+    i, j, u, v, w in {1, 2}; outputs: every ordered choice of 2..3 of (m, k, p) and the pairs with h1 / h2."""
+    a, b, c_, g1, g2, h1, h2, p_, k_, m_ = range(10)
+    outs_list = [o for r in (2, 3) for o in itertools.permutations((m_, k_, p_), r)]
+    outs_list += [(m_, h1), (h2, k_), (h1, h2), (h2, h1), (k_, m_, h1)]
+    for swap in (False, True):
+        for i, j, u, v, w in itertools.product((g1, g2), (g1, g2), (g1, g2), (h1, h2), (h1, h2)):
+            gates = (
+                (t1, (a, b)), (t1, (b, a) if swap else (a, b)),
+                (t2, (i, c_)), (t2, (c_, j) if swap else (j, c_)),
+                ('NOT', (u,)), ('XOR', (v, a)), ('XOR', (w, b)),
+            )
+            for outs in outs_list:
+                yield gates, outs
+
+
+def check_dup2(acc, t1, t2):
+    for gates, outs in dup2_specs(t1, t2):
+        n = 3
+        acc.states += 1
+        c = space.build(n, gates, outs)
+        net = space.spec_net(n, gates, outs)
+        post_checks(n, gates, outs, acc, c, net, net.tables(), 'DUP2')
+    acc.sample({**space.spec_json(3, gates, outs), 'mode': 'post'})
+
+
 def run_task(task, acc):
+    if task.get('kind') == 'dup2':
+        return check_dup2(acc, task['t1'], task['t2'])
     alpha = ALPHAS[task['alpha']]
     for gates in space.enum_gates(task['n'], task['k'], alpha, space.prefix_from_task(task)):
         check_circuit(task['n'], gates, acc, task['mode'], task['pol'], task['alpha'])
